@@ -24,7 +24,7 @@ func (e *engine) verifyLemma(l *lemmaSpec) *vc {
 			se.pkg = p
 		}
 	}
-	t := se.evalBool(l.expr)
+	t := se.evalGoal(l.expr)
 	v.oblige(st, "lemma", l.name, "", t, l.props)
 	return v
 }
